@@ -25,8 +25,8 @@ PROP = dict(
                        # first-generation surplus / debt auctions: bids, restart, every close path
                        "Comdex.C13.gen1_close_keeps_books", "Comdex.C13.gen1_close_collector_effect",
                        "Comdex.C13.gen1_begin_block_keeps_books", "Comdex.C13.gen1_bids_keep_books",
-                       # second-generation liquidation penalty booked under the collateral asset (finding D-C13-3)
-                       "Comdex.C13.collector_custody_ge_sum_netfees_counterexample_v2penalty", "Comdex.C13.repaired_v2_penalty_exact"],
+                       # second-generation liquidation penalty: exact since fix d8b6c2e (finding D34); what the unrepaired code did
+                       "Comdex.C13.v2_penalty_exact", "Comdex.C13.v2_penalty_before_fix_counterexample"],
     harness_tests=["TestC13"],
     trusted_base=[KERNEL_TB, HARNESS_TB,
                   "Model/Locker.lean is hand-written from x/locker/keeper/msg_server.go, x/locker/keeper/locker.go, "
